@@ -57,7 +57,10 @@ def pools(tier):
     ite = lambda s, t, u: logic.mk_if(s, t, u)
     small = [a, b, Not(a), Not(b), And(a, b), Or(a, b), Implies(a, b), Eq(a, b), Not(And(a, b)), Not(Or(a, b)), Not(Implies(a, b)),
              Not(Eq(a, b)), true, false]
-    more = [Not(Not(a)), Not(Not(Not(a))), ite(a, b, c), Not(ite(a, b, c)), xor(a, b), Not(xor(a, b)), Eq(x, y), Not(Eq(x, y)),
+    quant = [Eq(Forall(x, p(x)), p(x)), Eq(Forall(x, p(x)), p(y)), Eq(Exists(x, p(x)), p(x)), Eq(Exists(x, a), a),
+             Eq(Forall(x, Forall(y, p(x))), Forall(x, p(x))), Eq(Forall(x, Forall(y, p(x))), Forall(y, p(y))),
+             Eq(Forall(x, p(x)), Forall(y, p(y))), Eq(Forall(x, Eq(x, y)), false), Eq(Forall(x, Implies(Eq(x, y), p(x))), p(y))]
+    more = quant + [Not(Not(a)), Not(Not(Not(a))), ite(a, b, c), Not(ite(a, b, c)), xor(a, b), Not(xor(a, b)), Eq(x, y), Not(Eq(x, y)),
             Eq(f(x), f(y)), p(x), Not(p(x)), p(y), Forall(x, p(x)), Exists(x, p(x)), Not(Forall(x, p(x))), And(a, b, c), Or(a, b, c),
             Not(And(a, b, c)), Not(Or(a, b, c)), Implies(a, Implies(b, c)), c, Not(c), Eq(And(a, b), And(b, a)), Eq(Not(Not(a)), a),
             Eq(And(a, true), a), Eq(Or(a, false), a), Eq(Implies(a, b), Or(Not(a), b)), Eq(Eq(a, b), And(Implies(a, b), Implies(b, a))),
@@ -65,7 +68,7 @@ def pools(tier):
             Eq(Or(a, Not(a)), true), Eq(Implies(a, a), true), Eq(Eq(a, a), true), Eq(Forall(x, a), a), Eq(x, x), Eq(y, x)]
     full = small + more
     if tier == 'quick':
-        full = small + more[:24]
+        full = small + more[:33]
     _P[tier] = (full, small)
     return _P[tier]
 
